@@ -367,6 +367,7 @@ func (w *World) Answer(node int, op string, mayFail bool) Fault {
 	case 1:
 		w.logf("%s", labels[1])
 		w.crashMid = true
+		n.crashedByDev = true
 		w.crash(n)
 		vsched.Halt()
 	case 2:
@@ -382,6 +383,7 @@ func (w *World) CrashNow(node int) {
 	n := w.nodes[node]
 	w.logf("n%d crash-after", node)
 	w.crashMid = true
+	n.crashedByDev = true
 	w.crash(n)
 	vsched.Halt()
 }
